@@ -348,6 +348,7 @@ func (p *Plan) collectAtRuntime(sp *selectionPlan, vars map[string]interface{}) 
 // type. Plan-time results are shared by key and registered before their
 // children are planned, so re-entering the same group closes a cycle.
 func (p *Plan) planSelectionSetsLocked(parentType *Object, selectionSets []*ast.SelectionSet, cs *collectState) *selectionPlan {
+	verifCount(1)
 	sp := &selectionPlan{parentType: parentType}
 	if !cs.runtime {
 		key := subPlanKey{parentType, fmt.Sprint(selectionSets)}
@@ -392,6 +393,7 @@ func (p *Plan) planSelectionSetsLocked(parentType *Object, selectionSets []*ast.
 // of the same response key merge their fieldASTs (matches
 // collectFields's `fields[name] = append(fields[name], selection)`).
 func (p *Plan) collectInto(parentType *Object, selectionSet *ast.SelectionSet, visitedFragmentNames map[string]bool, sp *selectionPlan, keyed map[string]int, cs *collectState) {
+	verifCount(0)
 	for _, iSelection := range selectionSet.Selections {
 		switch sel := iSelection.(type) {
 		case *ast.Field:
